@@ -11,7 +11,7 @@ job() {
     return
   fi
   base=8ef576c
-  case $root in /tmp/seed2*|/tmp/seed3*|/tmp/seed5*) base=$(git -C $root/$id rev-parse HEAD);; /tmp/seed_adapted*) base=$(git -C /repo rev-parse HEAD);; esac
+  case $root in /tmp/seed2*|/tmp/seed3*|/tmp/seed5*|/tmp/seed6*) base=$(git -C $root/$id rev-parse HEAD);; /tmp/seed_adapted*) base=$(git -C /repo rev-parse HEAD);; esac
   SEED_BASE=$base tools/confirm_seed.sh $d /verif/work/seeds/$tag.confirm.json
   # changes made against the pinned commit are also tried on the repaired tree: a repair may mask them
   case $root in /tmp/seed) SEED_BASE=$(git -C /repo rev-parse HEAD) tools/confirm_seed.sh $d /verif/work/seeds/$tag.confirmhead.json;; esac
